@@ -152,6 +152,7 @@ def check(steps, T, calls, timeout_ms=120000):
     pc = [[z3.Int("pc_%d_%d" % (t, i)) for i in range(S + 1)] for t in range(T)]
     # registers: value of each READ per (thread, call, readindex)
     reads = [i for i, st in enumerate(sh) if st[0] == "READ"]
+    # steps[k] (original list, with NSET entries) -> position of that step in `sh`
     reg = {}
     for t in range(T):
         for c in range(calls):
@@ -180,6 +181,8 @@ def check(steps, T, calls, timeout_ms=120000):
                         s.add(z3.Implies(at, z3.And(lockheld[i] == -1, lockheld[i + 1] == t, counter[i + 1] == counter[i])))
                     elif st[0] == "REL":
                         s.add(z3.Implies(at, z3.And(lockheld[i + 1] == -1, counter[i + 1] == counter[i])))
+                    elif st[0] == "SKIP":
+                        s.add(z3.Implies(at, z3.And(lockheld[i + 1] == lockheld[i], counter[i + 1] == counter[i])))
                     elif st[0] == "READ":
                         s.add(z3.Implies(at, z3.And(reg[(t, c, j)] == counter[i], counter[i + 1] == counter[i], lockheld[i + 1] == lockheld[i])))
                     elif st[0] == "WRITE":
